@@ -32,7 +32,7 @@ REQUIRED_CLASSES = ('buffering:default', 'buffering:line', 'buffering:flush-per-
                     'crash:between-records', 'crash:mid-record', 'prefix:shipped', 'prefix:generated',
                     'accepted:complete-file', 'accepted:inside-box-line', 'api:extrapolate_system', 'api:write_gro',
                     'api:write_comparative_gro', 'prefix:large-file', 'names:first-records-numeric',
-                    'abandoned:del', 'abandoned:exception-unwinds', 'abandoned:process-ends',
+                    'abandoned:del', 'abandoned:exception-unwinds', 'abandoned:process-ends', 'abandoned:after-a-refused-batch',
                     'output-path:holds-the-file-of-an-earlier-run')
 RULE = ('fault space: (writer run x buffering model x writer statement boundary) -> distinct on-disk images; every byte '
         'prefix of each in-progress stream; every byte prefix of complete files. A case is one (image or prefix) fed to '
@@ -637,6 +637,29 @@ def run_abandoned(ctx, case):
                         'abandoned_writer_read')
             ctx.hit('abandoned:' + how)
             ctx.nontrivial(('abandoned', i, k, how))
+    # all records are in the file; one more batch is offered whose first record is malformed, or whose source fails at
+    # once; the caller handles that - and then never gets to close(): still an unfinished file
+    for how in ('malformed-first-record', 'source-raises-at-once'):
+        apath = os.path.join(_tmp['dir'], f'ab{os.getpid()}.gro')
+        if os.path.exists(apath):
+            os.remove(apath)
+        g = grospec.write_spec(dict(spec, refusals=[]), apath, close=False)
+
+        def failing():
+            raise KeyError('unknown species')
+            yield
+        try:
+            g.writelines([grospec.record_list(spec['records'][0])[:5]] if how == 'malformed-first-record' else failing())
+        except (Exception, KeyboardInterrupt):  # noqa
+            pass
+        del g
+        gc.collect()
+        with open(apath, 'rb') as fh:
+            left = fh.read()
+        judge_image(ctx, left, complete, complete_recs, scratch,
+                    {'abandoned_writer': 'after a refused batch: ' + how, 'records_written': n, 'n_records': n, 'count_declared': spec['declare_count']},
+                    'abandoned_writer_read')
+        ctx.hit('abandoned:after-a-refused-batch')
     if i % 4 == 0:
         # the same in a process of its own that ends without closing the writer
         specfile = os.path.join(_tmp['dir'], f'a{os.getpid()}.json')
